@@ -16,8 +16,8 @@ obs, for each solver X in dinic, ek, ff (in this order):
   F X res=u:v:c,…             final residual graph (`verif_residual()`): depends on the augmenting paths
                               chosen, hence free; the judge runs the kernel-checked certificate on it
 
-Judge (on the I lines only): C01 `certOK edges s t res flow` for every solver (⇒ flow is THE maximum,
-`Tbx.FlowTheory.certOK_sound`) and pre = ERR,ERR;  C02 `minCutOK edges s t res flow bits` for every
+Judge (on the I lines only): C01 `certFast edges s t res flow` (= `certOK`, `certFast_eq`) for every solver (⇒ flow is THE maximum,
+`Tbx.FlowTheory.certOK_sound`) and pre = ERR,ERR;  C02 `minCutFast edges s t res flow bits` (= `minCutOK`) for every
 solver (⇒ bits is the inclusion-minimal minimum cut, `Tbx.FlowTheory.minCutOK_sound`).
 -/
 namespace Tbx.Drv.FlowCommon
@@ -166,7 +166,7 @@ def handle (withPre withAssign : Bool) (c : Case) : CaseOut := Id.run do
   let modelCert := [od, oe, off].all fun o =>
     match parseInt? o.flow, parseBits o.assign with
     | some x, some bits =>
-      if withAssign then FlowSpec.minCutOK es inp.s inp.t o.res x bits else FlowSpec.certOK es inp.s inp.t o.res x
+      if withAssign then FlowSpec.minCutFast es inp.s inp.t o.res x bits else FlowSpec.certFast es inp.s inp.t o.res x
     | _, _ => false
   -- judge: the Spec checkers on what the REAL solvers reported
   let mut verdict : Verdict := .ok
@@ -193,10 +193,10 @@ def handle (withPre withAssign : Bool) (c : Case) : CaseOut := Id.run do
       let some bits := parseBits aS
         | verdict := .fail s!"{solver}: assignment() after run() returned {aS}"
       assigns := aS :: assigns
-      if !FlowSpec.minCutOK es inp.s inp.t res x bits then
+      if !FlowSpec.minCutFast es inp.s inp.t res x bits then
         verdict := .fail s!"{solver}: flow={x} assign={aS}: {FlowSpec.minCutWhy es inp.s inp.t res x bits}"
     else
-      if !FlowSpec.certOK es inp.s inp.t res x then
+      if !FlowSpec.certFast es inp.s inp.t res x then
         verdict := .fail s!"{solver}: flow={x}: {FlowSpec.certWhy es inp.s inp.t res x}"
   if verdict matches .ok then
     match flows with
